@@ -553,13 +553,26 @@ def rule_loader_enumeration(ctx, px):
     consulted = sorted({c.func.value.attr for c in ast.walk(gs.node) if isinstance(c, ast.Call) and isinstance(c.func, ast.Attribute) and c.func.attr == "get_source"
                         and isinstance(c.func.value, ast.Attribute) and ast.unparse(c.func.value.value) == "self"})
     if not consulted:
-        raise AnalysisError("anchor missing: the loaders DSDLTemplateLoader.get_source consults")
+        from checks import _loaders
+        ol = _loaders.ordered_loop(gs)
+        if ol is None:
+            raise AnalysisError("anchor missing: the loaders DSDLTemplateLoader.get_source consults")
+        consulted = sorted(ol[2])      # get_source walks the class's precedence-ordered loader list
     marks = {"_fsloader": ("_fsloader.searchpath", "_fsloader.list_templates"), "_package_loader": ("_package_loader.list_templates", "_templates_package_name")}
     for en in (f, px.func(LOADERS_MOD, "DSDLTemplateLoader.list_templates")):
         for ld in consulted:
             def _head(st_):      # the statement itself, or the header of a loop (its body is visited on its own)
                 return ast.unparse(st_.iter) if isinstance(st_, ast.For) else ("" if isinstance(st_, (ast.If, ast.While, ast.Try, ast.With)) else ast.unparse(st_))
             sites = [(st, g) for st, g in pyfront.walk_guarded(en.node.body) if any(mk in _head(st) for mk in marks.get(ld, (ld,)))]
+            if not sites:
+                # enumerated through the same precedence-ordered loader list (each member is there whenever it exists)
+                from checks import _loaders
+                ol2 = _loaders.ordered_loop(en)
+                if ol2 is not None and ld in ol2[2] and any(isinstance(c_, ast.Call) and isinstance(c_.func, ast.Attribute) and c_.func.attr == "list_templates"
+                                                            and isinstance(c_.func.value, ast.Name) and c_.func.value.id == ol2[1] for c_ in ast.walk(ol2[0])) \
+                        and not pyfront.guards_of(en.node, ol2[0]):
+                    ctx.ob(R, en.module.rel, f"{en.short} :: templates of self.{ld} are enumerated whenever that loader exists", True, "member of the loader list the loop walks", ol2[0].lineno)
+                    continue
             if not sites:
                 ctx.ob(R, en.module.rel, f"{en.short} :: templates of self.{ld} are enumerated whenever that loader exists", False,
                        f"get_source reads from self.{ld}, but this enumeration never lists its templates", en.node.lineno)
